@@ -207,31 +207,38 @@ Fixpoint merge3 (b o t : tree) : option tree :=
   | _, _, _ => None
   end.
 
-(* `git apply --cached --3way` of diff(b -> t) onto index content o.  Same as the cell-wise
-   merge except for whole-file cells (the one-cell files after the multi-region files): a
-   creation patch needs the file to be absent and a deletion patch needs it to be present
-   unchanged - "already created" / "already deleted" make git apply fail although a real
-   merge (merge-recursive, used by the work-tree fallback) is clean. *)
-Definition apply_cell (single : bool) (b o t : N) : option N :=
+(* `git apply --cached --3way` of diff(b -> t) onto the content o of a TEMPORARY index, run in
+   the work tree w (what stg's apply_treediff_to_index does).  git tries a three-way merge per
+   file first (base = the blob named in the patch, ours = the index entry), then the direct
+   application: for a file that exists on both sides of the patch this is the cell-wise merge.
+   Whole-file cells (the one-cell files after the multi-region files, 0 = absent) differ:
+   a deletion has no three-way fallback (the file must be there unchanged); a CREATION of a
+   file that is already in the index reads "our" version through the work tree even under
+   --cached - a file that exists there is compared with the stat-less temporary index entry
+   and refused ("does not match index"), an absent one is checked out (and left behind) and
+   merged against an empty base, which is clean only when both sides created the same content. *)
+Definition apply_cell (single : bool) (wc b o t : N) : option N :=
   if N.eqb t b then Some o
-  else if single && (N.eqb b 0 || N.eqb t 0) then (if N.eqb o b then Some t else None)
+  else if single && N.eqb b 0 then
+    (if N.eqb o 0 then Some t else if N.eqb wc 0 && N.eqb o t then Some t else None)
+  else if single && N.eqb t 0 then (if N.eqb o b then Some t else None)
   else if single && N.eqb o 0 then None
   else merge_cell b o t.
 
 Definition multi_cells : nat := 9.
 
-Fixpoint apply3way_from (i : nat) (b o t : tree) : option tree :=
-  match b, o, t with
-  | [], [], [] => Some []
-  | x :: b', y :: o', z :: t' =>
-      match apply_cell (Nat.leb multi_cells i) x y z, apply3way_from (S i) b' o' t' with
+Fixpoint apply3way_from (i : nat) (w b o t : tree) : option tree :=
+  match w, b, o, t with
+  | [], [], [], [] => Some []
+  | wc :: w', x :: b', y :: o', z :: t' =>
+      match apply_cell (Nat.leb multi_cells i) wc x y z, apply3way_from (S i) w' b' o' t' with
       | Some c, Some r => Some (c :: r)
       | _, _ => None
       end
-  | _, _, _ => None
+  | _, _, _, _ => None
   end.
 
-Definition apply3way (b o t : tree) : option tree := apply3way_from 0 b o t.
+Definition apply3way (w b o t : tree) : option tree := apply3way_from 0 w b o t.
 
 (* ---------------------------------------------------------------- transactions *)
 
@@ -453,7 +460,7 @@ Definition push_patch (n : name) (already_merged : bool) (t : txn) : tres :=
                 | Some c => if tree_eqb c ours then t else set_tmp t (Some ours) ours
                 | None => set_tmp t (Some ours) ours
                 end in
-              match apply3way otree (t_tmp_content t1) theirs with
+              match apply3way (t_wt t1) otree (t_tmp_content t1) theirs with
               | Some merged =>
                   (* apply + write-tree succeeded: the temp index now holds [merged] *)
                   inl (set_tmp t1 (Some merged) merged, merged, PSNormal)
